@@ -25,6 +25,7 @@ func Main(args []string) int {
 		cpuprof := fs.String("cpuprofile", "", "write cpu profile")
 		noKnown := fs.Bool("noknown", false, "ignore known_findings.json")
 		finding := fs.String("finding", "", "run the finding pass for this known-finding id")
+		thorough := fs.Bool("thorough", false, "sym.Thorough() is true")
 		fs.Parse(args[1:])
 		if *cpuprof != "" {
 			f, _ := os.Create(*cpuprof)
@@ -42,6 +43,7 @@ func Main(args []string) int {
 		fmt.Fprintf(os.Stderr, "loaded in %.1fs, ssa in %.1fs\n", P.LoadSecs, P.BuildSecs)
 		cfg := &Config{MaxSteps: 20_000_000, MaxDepth: 4000, MaxPaths: *maxPaths, QueryTimeoutMs: 20000,
 			Workers: *workers, Solver: "z3", Verbose: *verbose, SampleModels: 3, MaxThreads: 4, MaxPreempt: 1 << 30}
+		cfg.Thorough = *thorough
 		if !*noKnown {
 			cfg.Known, _, _ = loadKnown("/verif/known_findings.json")
 			cfg.FindingID = *finding
